@@ -232,8 +232,40 @@ func TestSchedDriveReal(t *testing.T) {
 		ts := kcp.NewTimedSched(w)
 		start := time.Now()
 		span := 300 * time.Millisecond
+		// a watchdog measures how late this (possibly heavily loaded) machine wakes a sleeping goroutine: the grace period of the
+		// real-time runs grows with it, so that scheduling latency of the host is never mistaken for lateness of the scheduler
+		var maxLag atomic.Int64
+		stopDog := make(chan struct{})
+		go func() {
+			for {
+				select {
+				case <-stopDog:
+					return
+				default:
+				}
+				t0 := time.Now()
+				time.Sleep(2 * time.Millisecond)
+				if lag := int64(time.Since(t0) - 2*time.Millisecond); lag > maxLag.Load() {
+					maxLag.Store(lag)
+				}
+			}
+		}()
 		all := drive(ts, rng, 8, vh.EnvInt("SCHED_REAL_TASKS", 1500), span, 0, start, time.Sleep)
 		time.Sleep(span + 700*time.Millisecond)
+		// (on a loaded machine) wait until every awaited task has run, at most 60 s
+		for limit := time.Now().Add(60 * time.Second); time.Now().Before(limit); time.Sleep(20 * time.Millisecond) {
+			pending := 0
+			for _, rc := range all {
+				if rc.dl-rc.put <= int64(10*span) && rc.n.Load() == 0 {
+					pending++
+				}
+			}
+			if pending == 0 {
+				break
+			}
+		}
+		close(stopDog)
+		grace := int64(2*time.Second) + 20*maxLag.Load()
 		tr := &vh.Trace{}
 		for i, rc := range all {
 			if rc.at.Load() > 0 {
@@ -243,7 +275,7 @@ func TestSchedDriveReal(t *testing.T) {
 			if far {
 				continue // far-future tasks are not awaited in real time
 			}
-			emit(tr, i, rc, false, int64(2*time.Second))
+			emit(tr, i, rc, false, grace)
 			sum.Tasks++
 		}
 		ts.Close()
